@@ -161,13 +161,19 @@ fn must_quote(s: &[u8]) -> bool {
     // https://yaml.org/spec/1.2.2/#912-document-markers
     let is_doc_marker = |s: &[u8]| matches!(s, b"---" | b"...");
 
-    // number overapproximation
+    // number overapproximation: optional sign, optional dot, digit
+    let unsigned = match s {
+        [b'-' | b'+', rest @ ..] => rest,
+        _ => s,
+    };
     let is_pos_num = |s: &[u8]| s.first().is_some_and(u8::is_ascii_digit);
-    let is_num = |s: &[u8]| is_pos_num(s.strip_prefix(b"-").unwrap_or(s));
+    let is_num = |s: &[u8]| is_pos_num(s.strip_prefix(b".").unwrap_or(s));
+    let is_inf = |s: &[u8]| inf.iter().any(|i| i.as_bytes() == s);
 
     s == b"~"
         || is_doc_marker(s)
-        || is_num(s)
+        || is_num(unsigned)
+        || is_inf(unsigned)
         || kws.iter().any(|ss| ss.contains(&s))
         || !ns_plain_one_line(s)
 }
